@@ -67,6 +67,11 @@ def gen_cases(rng, tier):
                       (U32, [("a", U32), ("a", U32)]), (U32 - 2, [("r", U32), ("a", U32 - 2), ("r", U32 - 1)])):
         cases.append(["lim%d" % n, "c10", "S:%d:1" % base, ",".join(_recv(0, c, "r%d" % i, ack=1 if k == "a" else 0) for i, (k, c) in enumerate(evs))])
         n += 1
+    # a usage that TAKES what it is offered (as the invite usage does): every released request still reaches it
+    for perm in itertools.permutations(range(1, 5)):
+        cases.append(["take%d" % n, "c10", "S:20:1", ",".join(_recv(0, 20 + p, "r%d" % i) for i, p in enumerate(perm)), "take"]); n += 1
+    for perm in ([2, 3, 1, 4], [3, 2, 1], [2, 1, 4, 3]):
+        cases.append(["take%d" % n, "c10", "C:1", ",".join([_recv(0, 100, "r0")] + [_recv(0, 100 + p, "r%d" % (i + 1)) for i, p in enumerate(perm)]), "take"]); n += 1
     # two different requests with one number ahead of a gap: the second one must not displace the first
     for evs in ([("r", 13), ("r", 13), ("r", 11), ("r", 12), ("r", 14)], [("r", 12), ("r", 13), ("r", 12), ("r", 13), ("r", 11)], [("r", 15), ("r", 15), ("r", 15)]):
         cases.append(["dup%d" % n, "c10", "S:10:1", ",".join(_recv(0, c, "r%d" % i) for i, (k, c) in enumerate(evs))])
